@@ -1,11 +1,264 @@
-(* Property C03 — theorems only.  Model: Model/C03_Loops.v *)
-From Coq Require Import List ZArith Bool Arith QArith.
+(* Property C03 — packaged evolutionary loops keep fitnesses, counts and logs truthful.
+   Theorems only.  Model: Model/C03_Loops.v (deap/algorithms.py eaSimple, eaMuPlusLambda,
+   eaMuCommaLambda, eaGenerateUpdate; deap/gp.py harm).  Proofs: Proofs/C03_Loops.v.
+
+   Reading guide.
+   * A run is the model applied to the list of per-generation oracle answers (ngen = its length).
+     "At every generation boundary" is expressed by splitting the answers as l1 ++ l2: the state
+     after l1 is a boundary of the run on l1 ++ l2, and its logbook / call log are prefixes of the
+     final ones (extends_history).
+   * InvC s (Proofs) packs, for the state s at a boundary:
+       ic_pop          every individual of the population has fit = Some (evaluate genotype)
+       ic_gens         the logbook's gen column is 0,1,2,... (consecutive, in order)
+       ic_nevals       one call log per record; nevals of the record = number of evaluate calls
+       ic_snap         every snapshot a Statistics object took at any earlier boundary contains only
+                       valid fitnesses equal to evaluate(genotype)
+       ic_last         the last record is the snapshot of the current population
+       ic_shown_calls  every evaluated individual was passed to halloffame.update
+       ic_shown_pop    every member of the population was passed to halloffame.update
+   * InvH s: the best fitness of the hall of fame is >= every evaluated fitness, every fitness any
+     record logged, every fitness in the population; each record's own best (the hall of fame at
+     that boundary) is >= what that record logged.
+   * calls_exact s s' gen off: in the generation leading from s to s' evaluate was called exactly
+     on the objects of off (the individuals returned by variation) whose fitness was invalid, in
+     order, with their genotype, each once (when they are distinct objects), nevals = that number,
+     and the record carries gen.
+   Hypotheses (names as in Proofs): init_ok (pre-set fitnesses of the initial population are
+   truthful), run_ok .. ans_ok_* (selection returns the requested number of elements of its
+   argument; variation satisfies the C02 contract off_ok; generate returns new distinct objects),
+   for harm: the event stream fits the code path (result Ok; Mismatch = a guard of the real code
+   or an operator contract fails, OutOfFuel is impossible by C03_harm_fuel_suffices).
+   The in-place update of the caller's list is by construction of the model: s_pop IS the content
+   of the caller's list object (`population[:] = ...`); the correspondence run checks object
+   identity on the implementation. *)
+From Coq Require Import List ZArith Bool Arith Lia QArith.
 From DV Require Import Model.C03_Loops Proofs.C03_Loops.
 Import ListNotations.
 Local Close Scope Q_scope.
 Local Open Scope nat_scope.
 
-Theorem C03_gu_ngen0 : forall (G F : Type) (evaluate : G -> F) (fle : F -> F -> bool),
-  ea_gu evaluate fle [] = init empty_store [].
-Proof. intros; apply gu_ngen0. Qed.
+Section Statements.
+Context {G F : Type}.
+Variable evaluate : G -> F.
+Variable fle : F -> F -> bool.
+Notation store := (@store G F).
+Notation state := (@state G F).
+Notation ans := (@ans G F).
+Notation ev := (@ev G).
+
+(* ---------------- loop_inv: at every boundary ---------------- *)
+Theorem C03_loop_inv_simple : forall (st : store) (pop : list uid) (l1 l2 : list ans),
+  init_ok evaluate st pop ->
+  run_ok (step_simple evaluate fle) ans_ok_simple 1 (gen0 evaluate fle (init st pop)) (l1 ++ l2) ->
+  let b := ea_simple evaluate fle st pop l1 in
+  InvC evaluate b /\ length (s_log b) = S (length l1) /\
+  length (s_pop b) = length pop /\
+  extends_history b (ea_simple evaluate fle st pop (l1 ++ l2)).
+Proof. exact (simple_every_boundary evaluate fle). Qed.
+
+Theorem C03_loop_inv_plus : forall (mu lam : nat) (st : store) (pop : list uid) (l1 l2 : list ans),
+  init_ok evaluate st pop ->
+  run_ok (step_plus evaluate fle) (ans_ok_plus mu lam) 1 (gen0 evaluate fle (init st pop)) (l1 ++ l2) ->
+  let b := ea_plus evaluate fle st pop l1 in
+  InvC evaluate b /\ length (s_log b) = S (length l1) /\
+  length (s_pop b) = match l1 with [] => length pop | _ => mu end /\
+  extends_history b (ea_plus evaluate fle st pop (l1 ++ l2)).
+Proof. exact (plus_every_boundary evaluate fle). Qed.
+
+Theorem C03_loop_inv_comma : forall (mu lam : nat) (st : store) (pop : list uid) (l1 l2 : list ans),
+  init_ok evaluate st pop ->
+  run_ok (step_comma evaluate fle) (ans_ok_comma mu lam) 1 (gen0 evaluate fle (init st pop)) (l1 ++ l2) ->
+  let b := ea_comma evaluate fle st pop l1 in
+  InvC evaluate b /\ length (s_log b) = S (length l1) /\
+  length (s_pop b) = match l1 with [] => length pop | _ => mu end /\
+  extends_history b (ea_comma evaluate fle st pop (l1 ++ l2)).
+Proof. exact (comma_every_boundary evaluate fle). Qed.
+
+(* generate-update: records 0 .. ngen-1 (DESIGN Appendix B item 2); ngen = 0 returns the empty
+   population and an empty logbook (after the fix: eaGenerateUpdate raised UnboundLocalError) *)
+Theorem C03_loop_inv_gu : forall (l1 l2 : list ans),
+  run_ok (step_gu evaluate fle) ans_ok_gu 0 (init empty_store []) (l1 ++ l2) ->
+  let b := ea_gu evaluate fle l1 in
+  InvC evaluate b /\ length (s_log b) = length l1 /\
+  extends_history b (ea_gu evaluate fle (l1 ++ l2)).
+Proof. exact (gu_every_boundary evaluate fle). Qed.
+
+Theorem C03_gu_ngen0 : ea_gu evaluate fle [] = init empty_store [].
+Proof. reflexivity. Qed.
+
+Theorem C03_loop_inv_harm : forall (cxpb mutpb : Q) (nbrindsmodel : Z) (st : store) (pop : list uid)
+    (l1 l2 : list (list ev)) (e : state),
+  init_ok evaluate st pop ->
+  ea_harm evaluate fle cxpb mutpb nbrindsmodel st pop (l1 ++ l2) = Ok e ->
+  exists b, ea_harm evaluate fle cxpb mutpb nbrindsmodel st pop l1 = Ok b /\
+    InvC evaluate b /\ length (s_log b) = S (length l1) /\
+    length (s_pop b) = length pop /\ extends_history b e.
+Proof. exact (harm_every_boundary evaluate fle). Qed.
+
+(* the fuel given to harm's inner while is always sufficient: out-of-fuel never happens *)
+Theorem C03_harm_fuel_suffices : forall (cxpb mutpb : Q) (nbr : nat) (l : list (list ev)) (gen : nat) (s : state),
+  run_harm evaluate fle cxpb mutpb nbr gen s l <> OutOfFuel.
+Proof. exact (run_harm_fuel evaluate fle). Qed.
+
+(* ---------------- who is evaluated, how often, and nevals ---------------- *)
+Theorem C03_calls_gen0 : forall (st : store) (pop : list uid),
+  let s' := gen0 evaluate fle (init st pop) in
+  exists log r,
+    s_calls s' = [log] /\ s_log s' = [r] /\
+    map fst log = invalid_of st pop /\
+    Forall (fun c => exists i, st (fst c) = Some i /\ geno i = snd c) log /\
+    r_gen r = 0 /\ r_nevals r = length log /\
+    (NoDup (invalid_of st pop) -> NoDup (map fst log)).
+Proof. exact (gen0_calls evaluate fle). Qed.
+
+Theorem C03_calls_simple : forall (gen : nat) (s : state) (a : ans),
+  ans_ok_simple s a -> calls_exact s (step_simple evaluate fle gen s a) gen (a_off a).
+Proof. exact (simple_calls evaluate fle). Qed.
+
+Theorem C03_calls_plus : forall (mu lam gen : nat) (s : state) (a : ans),
+  ans_ok_plus mu lam s a -> calls_exact s (step_plus evaluate fle gen s a) gen (a_off a).
+Proof. exact (plus_calls evaluate fle). Qed.
+
+Theorem C03_calls_comma : forall (mu lam gen : nat) (s : state) (a : ans),
+  ans_ok_comma mu lam s a -> calls_exact s (step_comma evaluate fle gen s a) gen (a_off a).
+Proof. exact (comma_calls evaluate fle). Qed.
+
+(* generate-update evaluates every generated individual exactly once, nevals = len(population) *)
+Theorem C03_calls_gu : forall (gen : nat) (s : state) (a : ans),
+  ans_ok_gu s a ->
+  let s' := step_gu evaluate fle gen s a in
+  exists log r,
+    s_calls s' = s_calls s ++ [log] /\ s_log s' = s_log s ++ [r] /\
+    map fst log = map fst (a_off a) /\ NoDup (map fst log) /\
+    Forall (fun c => exists i, In (fst c, i) (a_off a) /\ geno i = snd c) log /\
+    r_gen r = gen /\ r_nevals r = length log /\ s_pop s' = map fst (a_off a).
+Proof. exact (step_gu_calls evaluate fle). Qed.
+
+(* harm: the offspring are new pairwise distinct objects (|offspring| = |population| is in
+   C03_loop_inv_harm); exactly those with an invalid fitness are evaluated, once each, in order *)
+Theorem C03_calls_harm : forall (cxpb mutpb : Q) (nbr gen : nat) (s : state) (evs : list ev) (s' : state),
+  InvC evaluate s -> gen = length (s_log s) ->
+  step_harm evaluate fle cxpb mutpb nbr gen s evs = Ok s' ->
+  exists st2 off log r,
+    harm_offspring cxpb mutpb nbr s evs = Ok (st2, off) /\
+    NoDup off /\ Forall (fun x => s_st s x = None) off /\ s_pop s' = off /\
+    s_calls s' = s_calls s ++ [log] /\ s_log s' = s_log s ++ [r] /\
+    map fst log = invalid_of st2 off /\ NoDup (map fst log) /\
+    Forall (fun c => exists i, st2 (fst c) = Some i /\ geno i = snd c) log /\
+    r_gen r = gen /\ r_nevals r = length log.
+Proof. exact (harm_calls evaluate fle). Qed.
+
+(* ---------------- hall of fame and elitism (fitness order = total preorder) ---------------- *)
+Section Order.
+Hypothesis fle_total : forall a b, fle a b = true \/ fle b a = true.
+Hypothesis fle_trans : forall a b c, fle a b = true -> fle b c = true -> fle a c = true.
+
+Theorem C03_hof_simple : forall (st : store) (pop : list uid) (l1 l2 : list ans),
+  init_ok evaluate st pop ->
+  run_ok (step_simple evaluate fle) ans_ok_simple 1 (gen0 evaluate fle (init st pop)) (l1 ++ l2) ->
+  InvH evaluate fle (ea_simple evaluate fle st pop l1).
+Proof. exact (simple_hof_boundary evaluate fle fle_total fle_trans). Qed.
+
+Theorem C03_hof_plus : forall (mu lam : nat) (st : store) (pop : list uid) (l1 l2 : list ans),
+  init_ok evaluate st pop ->
+  run_ok (step_plus evaluate fle) (ans_ok_plus mu lam) 1 (gen0 evaluate fle (init st pop)) (l1 ++ l2) ->
+  InvH evaluate fle (ea_plus evaluate fle st pop l1).
+Proof. exact (plus_hof_boundary evaluate fle fle_total fle_trans). Qed.
+
+Theorem C03_hof_comma : forall (mu lam : nat) (st : store) (pop : list uid) (l1 l2 : list ans),
+  init_ok evaluate st pop ->
+  run_ok (step_comma evaluate fle) (ans_ok_comma mu lam) 1 (gen0 evaluate fle (init st pop)) (l1 ++ l2) ->
+  InvH evaluate fle (ea_comma evaluate fle st pop l1).
+Proof. exact (comma_hof_boundary evaluate fle fle_total fle_trans). Qed.
+
+Theorem C03_hof_gu : forall (l1 l2 : list ans),
+  run_ok (step_gu evaluate fle) ans_ok_gu 0 (init empty_store []) (l1 ++ l2) ->
+  InvH evaluate fle (ea_gu evaluate fle l1).
+Proof. exact (gu_hof_boundary evaluate fle fle_total fle_trans). Qed.
+
+Theorem C03_hof_harm : forall (cxpb mutpb : Q) (nbrindsmodel : Z) (st : store) (pop : list uid)
+    (l1 l2 : list (list ev)) (e : state),
+  init_ok evaluate st pop ->
+  ea_harm evaluate fle cxpb mutpb nbrindsmodel st pop (l1 ++ l2) = Ok e ->
+  exists b, ea_harm evaluate fle cxpb mutpb nbrindsmodel st pop l1 = Ok b /\ InvH evaluate fle b.
+Proof. exact (harm_hof_boundary evaluate fle fle_total fle_trans). Qed.
+
+(* plus_elitist: one mu+lambda generation with tools.selBest (mu >= 1): every fitness present in
+   the population before is matched or beaten by a member of the population afterwards, hence the
+   best fitness never gets worse. *)
+Theorem C03_plus_elitist : forall (mu gen : nat) (s : state) (a : ans),
+  InvC evaluate s -> off_ok (s_st s) (s_pop s) (a_off a) -> 1 <= mu ->
+  let s' := step_plus_best evaluate fle mu gen s a in
+  forall x i f, In x (s_pop s) -> s_st s x = Some i -> fit i = Some f ->
+  exists y iy fy, In y (s_pop s') /\ s_st s' y = Some iy /\ fit iy = Some fy /\ fle f fy = true.
+Proof. exact (plus_best_elitist evaluate fle fle_total fle_trans). Qed.
+
+(* ... and such a generation is a mu+lambda generation satisfying the selection contract, so
+   C03_loop_inv_plus / C03_hof_plus / C03_calls_plus apply to it *)
+Theorem C03_plus_best_is_plus : forall (mu lam gen : nat) (s : state) (a : ans),
+  off_ok (s_st s) (s_pop s) (a_off a) -> length (a_off a) = lam -> mu <= length (s_pop s) + lam ->
+  exists idxs, step_plus_best evaluate fle mu gen s a = step_plus evaluate fle gen s (mkans idxs (a_off a)) /\
+               ans_ok_plus mu lam s (mkans idxs (a_off a)).
+Proof. exact (ans_ok_plus_best evaluate fle). Qed.
+End Order.
+End Statements.
+
+Print Assumptions C03_loop_inv_simple.
+Print Assumptions C03_loop_inv_plus.
+Print Assumptions C03_loop_inv_comma.
+Print Assumptions C03_loop_inv_gu.
 Print Assumptions C03_gu_ngen0.
+Print Assumptions C03_loop_inv_harm.
+Print Assumptions C03_harm_fuel_suffices.
+Print Assumptions C03_calls_gen0.
+Print Assumptions C03_calls_simple.
+Print Assumptions C03_calls_plus.
+Print Assumptions C03_calls_comma.
+Print Assumptions C03_calls_gu.
+Print Assumptions C03_calls_harm.
+Print Assumptions C03_hof_simple.
+Print Assumptions C03_hof_plus.
+Print Assumptions C03_hof_comma.
+Print Assumptions C03_hof_gu.
+Print Assumptions C03_hof_harm.
+Print Assumptions C03_plus_elitist.
+Print Assumptions C03_plus_best_is_plus.
+
+(* ---------------- non-vacuity: the hypotheses are satisfiable ---------------- *)
+(* genotype = fitness = nat, evaluate = identity, order = Nat.leb: a total preorder *)
+Example C03_order_nonvacuous :
+  (forall a b, Nat.leb a b = true \/ Nat.leb b a = true) /\
+  (forall a b c, Nat.leb a b = true -> Nat.leb b c = true -> Nat.leb a c = true).
+Proof.
+  split; intros; rewrite ?Nat.leb_le in *; lia.
+Qed.
+
+Definition ex_store : @store nat nat :=
+  upd (upd empty_store 0 (mkind 7 (Some 7))) 1 (mkind 3 None).
+
+(* a partly pre-evaluated population of two, one eaSimple generation: selection picks individual 0
+   twice, variation returns one changed clone (invalid) and one unchanged clone (copy of 0) *)
+Example C03_simple_nonvacuous :
+  init_ok (fun g : nat => g) ex_store [0; 1] /\
+  run_ok (step_simple (fun g : nat => g) Nat.leb) ans_ok_simple 1
+         (gen0 (fun g : nat => g) Nat.leb (init ex_store [0; 1]))
+         [mkans [0; 0] [(2, mkind 9 None); (3, mkind 7 (Some 7))]].
+Proof.
+  split.
+  - constructor; [exists (mkind 7 (Some 7)); split; [reflexivity|right; reflexivity]|].
+    constructor; [exists (mkind 3 None); split; [reflexivity|left; reflexivity]|constructor].
+  - cbn. split; [|exact I]. split; [split; [reflexivity|repeat constructor]|]. split; [|reflexivity].
+    constructor.
+    + intros u i [E|[E|[]]]; inversion E; subst; left; reflexivity.
+    + intros u i i' [E|[E|[]]] [E'|[E'|[]]]; inversion E; inversion E'; subst; try reflexivity; discriminate.
+    + intros u i f [E|[E|[]]] Hf; inversion E; subst; cbn in Hf; [discriminate|].
+      inversion Hf; subst. exists 0, (mkind 7 (Some 7)). repeat split. left; reflexivity.
+Qed.
+
+(* one harm generation on a population of one: nbrindsmodel = 1, the draw 1/2 is neither below
+   cxpb = 0 nor (after subtracting) below mutpb = 0, so the aspirant is a clone; it is accepted *)
+Example C03_harm_nonvacuous :
+  exists s, ea_harm (fun g : nat => g) Nat.leb 0%Q 0%Q 1%Z ex_store [0]
+              [[EDraw (1 # 2)%Q; ESelect [0] 1 [0]; EClone 0 2; EAccept 2 true]] = Ok s /\
+            s_pop s = [2] /\ map (@r_gen nat nat) (s_log s) = [0; 1].
+Proof. eexists. vm_compute. repeat split. Qed.
